@@ -61,6 +61,50 @@ func xmdRef(name string, b, r int, dst, msg []byte, n int) []byte {
 	return uniform[:n]
 }
 
+// caller-side memory layouts: lay = 0 separate allocations; lay = 1 DST and message are adjacent sub-slices of ONE
+// buffer with spare capacity behind them (frame[:nd], frame[nd:nd+nm]) - an append to either slice would write into
+// the caller's memory. The whole frame is compared with a snapshot afterwards: the inputs are read-only.
+func c14Inputs(nd, nm, lay int) (dst, msg, frame, snap []byte) {
+	if lay == 0 {
+		frame = make([]byte, nd+nm)
+	} else {
+		frame = make([]byte, nd+nm+4)
+	}
+	verif.AnyBytes("frame", frame)
+	snap = append([]byte{}, frame...)
+	if lay == 0 {
+		dst = append([]byte{}, frame[:nd]...)
+		msg = append([]byte{}, frame[nd:nd+nm]...)
+		return dst[:nd:nd], msg[:nm:nm], frame, snap
+	}
+	return frame[:nd], frame[nd : nd+nm], frame, snap
+}
+
+func c14Unchanged(dst, msg, frame, snap []byte, nd, nm int) bool {
+	ok := len(dst) == nd && len(msg) == nm
+	for i := range frame {
+		ok = ok && frame[i] == snap[i]
+	}
+	for i := 0; i < nd; i++ {
+		ok = ok && dst[i] == snap[i]
+	}
+	for i := 0; i < nm; i++ {
+		ok = ok && msg[i] == snap[nd+i]
+	}
+	return ok
+}
+
+// a SHAKE instance the caller has already used (absorbed data): the expander must work on a fresh state
+func c14Shake(used int) *verif.ShakeStub {
+	x := verif.NewShakeStub("shake128")
+	if used == 1 {
+		junk := make([]byte, 3)
+		verif.AnyBytes("junk", junk)
+		_, _ = x.Write(junk)
+	}
+	return x
+}
+
 func outLen(b, k int) int {
 	switch k {
 	case 0:
@@ -81,14 +125,14 @@ func outLen(b, k int) int {
 	return 4 * b
 }
 
-//verif:ob prop=C14,C18 name=ExpandMessageXMD_vs_RFC9380 mode=bv tags=purego split=h:0..2;nd:0..1+255..256;nm:0..2;k:0..7 sharedro=1
+//verif:ob prop=C14,C18 name=ExpandMessageXMD_vs_RFC9380 mode=bv tags=purego split=h:0..2;nd:0..1+255..256;nm:0..2;k:0..7;lay:0..1 sharedro=1
 func vh_C14_xmd() {
 	hid, nd, nm, k := verif.Case("h"), verif.Case("nd"), verif.Case("nm"), verif.Case("k")
 	hf, name, b, r := hashByID(hid)
-	dst := make([]byte, nd)
-	verif.AnyBytes("dst", dst)
-	msg := make([]byte, nm)
-	verif.AnyBytes("msg", msg)
+	dst, msg, frame, snap := c14Inputs(nd, nm, verif.Case("lay"))
+	defer func() {
+		verif.Assert(c14Unchanged(dst, msg, frame, snap, nd, nm), "the caller's DST / message memory is not modified")
+	}()
 	n := outLen(b, k)
 	out := make([]byte, n)
 	err := ExpandMessageXMD(out, hf, dst, msg)
@@ -143,16 +187,15 @@ func vh_C14_xmd_255() {
 
 // RFC 9380 section 5.3.2 expand_message_xof
 //
-//verif:ob prop=C14 name=ExpandMessageXOF_vs_RFC9380 mode=bv tags=purego split=nd:0..1+255..256;nm:0..2;n:1+32+96+300
+//verif:ob prop=C14 name=ExpandMessageXOF_vs_RFC9380 mode=bv tags=purego split=nd:0..1+255..256;nm:0..2;n:1+32+96+300;lay:0..1;used:0..1
 func vh_C14_xof() {
 	nd, nm, n := verif.Case("nd"), verif.Case("nm"), verif.Case("n")
-	dst := make([]byte, nd)
-	verif.AnyBytes("dst", dst)
-	msg := make([]byte, nm)
-	verif.AnyBytes("msg", msg)
+	dst, msg, frame, snap := c14Inputs(nd, nm, verif.Case("lay"))
 	out := make([]byte, n)
-	err := ExpandMessageXOF(out, verif.NewShakeStub("shake128"), dst, msg)
+	xofIn := c14Shake(verif.Case("used"))
+	err := ExpandMessageXOF(out, xofIn, dst, msg)
 	verif.Assert(err == nil, "no abort")
+	verif.Assert(c14Unchanged(dst, msg, frame, snap, nd, nm), "the caller's DST / message memory is not modified")
 	d := dst
 	if len(d) > 255 {
 		var in []byte
@@ -204,13 +247,18 @@ func xofRef(name string, k int, dst, msg []byte, n int) []byte {
 // elements, and map / add / clear_cofactor applied in the RFC's order. The maps themselves are uninterpreted
 // (Elligator 2 and the ristretto255 one-way map are NOT verified here; see DESIGN.md).
 //
-//verif:ob prop=C14 name=suites_vs_RFC9380 mode=bv tags=purego use=gapi nouse=ga_NU split=s:0..5;nd:1+255..256;nm:0..1
+//verif:ob prop=C14 name=suites_vs_RFC9380 mode=bv tags=purego use=gapi nouse=ga_NU split=s:0..5;nd:1+255..256;nm:0..1;lay:0..1;used:0..1
 func vh_C14_suites() {
 	s, nd, nm := verif.Case("s"), verif.Case("nd"), verif.Case("nm")
-	dst := make([]byte, nd)
-	verif.AnyBytes("dst", dst)
-	msg := make([]byte, nm)
-	verif.AnyBytes("msg", msg)
+	used := verif.Case("used")
+	if used == 1 && s != 2 && s != 3 && s != 5 {
+		verif.SkipRun() // (only the XOF suites take a caller-supplied instance)
+		return
+	}
+	dst, msg, frame, snap := c14Inputs(nd, nm, verif.Case("lay"))
+	defer func() {
+		verif.Assert(c14Unchanged(dst, msg, frame, snap, nd, nm), "the caller's DST / message memory is not modified")
+	}()
 	ro := func(p *curve.EdwardsPoint, u []byte) bool {
 		q0 := GEll2(uniformToField25519(u[:48]))
 		q1 := GEll2(uniformToField25519(u[48:96]))
@@ -226,16 +274,16 @@ func vh_C14_suites() {
 		p, err := Edwards25519_XMD_SHA512_ELL2_NU(dst, msg)
 		verif.Assert(err == nil && curve.Pid(p).Eq(nu(xmdRef("sha512", 64, 128, dst, msg, 48))), "edwards25519_XMD:SHA-512_ELL2_NU_ = clear_cofactor(map(u)), u = hash_to_field(msg, 1)")
 	case 2:
-		p, err := Edwards25519_XOF_ELL2_RO(verif.NewShakeStub("shake128"), dst, msg)
+		p, err := Edwards25519_XOF_ELL2_RO(c14Shake(used), dst, msg)
 		verif.Assert(err == nil && ro(p, xofRef("shake128", 128, dst, msg, 96)), "edwards25519_XOF:SHAKE128_ELL2_RO_")
 	case 3:
-		p, err := Edwards25519_XOF_ELL2_NU(verif.NewShakeStub("shake128"), dst, msg)
+		p, err := Edwards25519_XOF_ELL2_NU(c14Shake(used), dst, msg)
 		verif.Assert(err == nil && curve.Pid(p).Eq(nu(xofRef("shake128", 128, dst, msg, 48))), "edwards25519_XOF:SHAKE128_ELL2_NU_")
 	case 4:
 		p, err := Ristretto255_XMD_R255MAP_RO(crypto.SHA512, dst, msg)
 		verif.Assert(err == nil && curve.Rid(p).Eq(curve.RFromUniform(xmdRef("sha512", 64, 128, dst, msg, 64))), "ristretto255_XMD:SHA-512_R255MAP_RO_ = one_way_map(expand_message_xmd(msg, DST, 64))")
 	case 5:
-		p, err := Ristretto255_XOF_R255MAP_RO(verif.NewShakeStub("shake128"), dst, msg)
+		p, err := Ristretto255_XOF_R255MAP_RO(c14Shake(used), dst, msg)
 		verif.Assert(err == nil && curve.Rid(p).Eq(curve.RFromUniform(xofRef("shake128", 128, dst, msg, 64))), "ristretto255_XOF:SHAKE128_R255MAP_RO_ = one_way_map(expand_message_xof(msg, DST, 64))")
 	}
 }
